@@ -37,7 +37,35 @@ vocabulary and `Lemmas/App*.lean` prove the two descriptions equal on their comm
 (`wsgi_headers_refine_headers_model`, `wsgi_page_agrees_with_errorpage_render`,
 `wsgi_handle_agrees_with_errorpage_handle`, …).  The driver line `app serve` prints both sides.
 
-Where the composition is *partial* the function says so (`Seam`), it does not pick a default:
+Where the composition is *partial* the function says so (`Seam`), it does not pick a default.
+
+Seams between the models, and their state (lemma names in `Lemmas/App*.lean`):
+
+| seam                                                          | state                                                                    |
+|---------------------------------------------------------------|--------------------------------------------------------------------------|
+| `Wsgi.Req.route` ↔ `Router.handle`                            | glue `routeOf`; read back by `RouteRel`, `wsgiReq_ok`                    |
+| handler event ↔ the router's call (id, method, kwargs)        | `serve_handler_event`                                                    |
+| `Wsgi.headerlist` ↔ `Headers.headerlist`                      | closed: `wsgi_headers_refine_headers_model` (all response objects; `title`,|
+|                                                               | transcoding, both generated tables, one/many vs list)                    |
+| `Wsgi.renderPage` ↔ `ErrorPage.render` (debug off)            | closed: `wsgi_page_agrees_with_errorpage_render` (+ table tie)           |
+| `Wsgi.critPage` / `Py.htmlEscape` ↔ `criticalPage` / `helperEscape` | closed: `critPage_eq_criticalPage`, `htmlEscape_eq_helperEscape`   |
+| `Wsgi.jsonPage` ↔ `ErrorPage.dumpsObj`                        | closed for errors without exception object: `jsonPage_eq_dumpsObj`       |
+| `Wsgi.lineOfCode` ↔ `ErrorPage.statusLine`                    | closed: `lineOfCode_eq_statusLine`                                       |
+| `_handle` + `_cast` error branch ↔ `ErrorPage.handleErr/serve`| closed for 400 / 404 / 405 (HTML, JSON) and the 500 of a crash (HTML):   |
+|                                                               | `wsgi_handle_agrees_with_errorpage_handle`, `serve_routing_error_page`,  |
+|                                                               | `serve_crash_page`                                                       |
+| routers built by `add` / `remove_method` histories            | no route hooks, no fault: `serveW_defined`                               |
+| `BodyAccess.statusOf` ↔ status code of `Wsgi.wsgi`            | closed at the status level: `bodyaccess_status_agrees_with_wsgi`         |
+| route hooks (`on_route`, `error(404, rule)`)                  | NOT connected (`Seam.routeHooks`): no word for them in `Wsgi.Route`      |
+| 405 whose `Allow` `_hval` refuses                             | NOT connected (`Seam.allowRefused`): "routing raised" is not a `Wsgi.Route` |
+| `Request.url` raises                                          | NOT connected (`Seam.urlError`): only `ErrorPage.serve` has that page    |
+| JSON body of a 500 with exception object                      | NOT connected: `Wsgi.jsonPage` has no exception text / traceback         |
+| `ErrorPage` outcomes `iterRaises`, `unsupportedType`, `abort`, `ok` | NOT connected: agreement with the corresponding `Out` programs not stated |
+| `ErrorPage.requestError`, body of a mapped request error      | NOT connected: handler programs cannot read the body; `BodyAccess` keeps |
+|                                                               | the status only; `App.Req` has no body                                   |
+| `Wsgi.Eff.setHeader/addHeader` ↔ `Headers.setitem/append`     | closed: `wsgi_setHeader_refines_setitem`, `wsgi_addHeader_refines_append` |
+| other `Headers.Op` (setdefault, properties, del, clear, init, non-`str` values) | NOT connected: no counterpart in `Wsgi.Eff`            |
+| cookies ↔ `Model/Cookies` (quoting), histories ↔ `Model/History`, `catchall = False`, `domain_map` | not composed                    |
 -/
 namespace Ombott.App
 open Py
@@ -208,21 +236,6 @@ def headersView (st : Wsgi.RState) : Headers.Resp :=
 
 /-- `BaseResponse.headerlist` of the final response object, said by `Model/Headers` -/
 def headerlistView (res : Wsgi.Result) : List (Str × Str) := Headers.headerlist (headersView res.slots.resp)
-
-/-- the framework-generated error outcomes of `Model/ErrorPage` as route results of `Model/Wsgi`
-(`requestError` is C12's: the handler program would have to read the body) -/
-def outcomeRoute (id : Nat) : ErrorPage.Outcome → Option Wsgi.Route
-  | .notFound => some .notFound
-  | .notAllowed a => some (.notAllowed a)
-  | .raises _ _ _ => some (.found { effs := [], res := .raises })
-  | .iterRaises _ _ _ => some (.found { effs := [], res := .returns (.iter id false [.raises]) })
-  | .unsupportedType ty => some (.found { effs := [], res := .returns (.iter id false [.unsup ty]) })
-  | .abort code text =>
-    some (.found { effs := [], res := .raisesResp (.resp true
-      { code := code, line := Wsgi.lineOfCode code, headers := [], cookies := [] }
-      (match text with | some t => .text t | none => .falsy .none)) })
-  | .ok body => some (.found { effs := [], res := .returns (.text body) })
-  | .requestError _ _ _ => none
 
 /-- the request of `Model/ErrorPage` for this environ -/
 def errorPageReq (q : Req) : ErrorPage.Req :=
